@@ -58,6 +58,8 @@ POSE_FIELDS = ("geom_pos", "geom_quat", "body_pos", "body_quat")
 # model features a field needs beyond the default rich grammar
 FIELD_TAGS = {
   "geom_dataid": ("mesh",),
+  "geom_gap": ("gapband",),
+  "geom_margin": ("gapband",),
   "sleep_tolerance": ("sleep",),
   "ccd_tolerance": ("convex",),
   "actuator_acc0": ("muscle",),
@@ -268,13 +270,19 @@ def _impratio(mjm, a, g):
   mjm.opt.impratio = float(mjm.opt.impratio * np.exp(g.uniform(np.log(0.2), np.log(8.0))))
 
 
-def _geom_margin(mjm, a, g):
-  """Margins grow/shrink; box and mesh geoms keep margin 0 (put_model rejects margins on box/mesh CCD pairs: a frozen decision)."""
+def _geom_margin(mjm, a, g, row=0, ctx=None):
+  """Margins grow/shrink; box and mesh geoms keep margin 0 (put_model rejects margins on box/mesh CCD pairs: a frozen decision); the two
+  'gap band' spheres alternate between a margin that excludes and one that includes their contact."""
   GT = mujoco.mjtGeom
   for i in range(mjm.ngeom):
     if int(mjm.geom_type[i]) in (int(GT.mjGEOM_BOX), int(GT.mjGEOM_MESH)):
       continue
     a[i] = a[i] * g.uniform(0.6, 1.6) + g.uniform(0.0, 0.02)
+  for gid, _, base in (ctx or {}).get("band", []):
+    a[gid] = base * (0.3 if row % 2 == 0 else 1.5)
+
+
+_geom_margin.rowaware = True
 
 
 def _pair_margin(mjm, a, g):
@@ -284,6 +292,17 @@ def _pair_margin(mjm, a, g):
     if int(mjm.geom_type[mjm.pair_geom1[i]]) in hard and int(mjm.geom_type[mjm.pair_geom2[i]]) in hard:
       continue
     a[i] = a[i] * g.uniform(0.6, 1.6) + g.uniform(0.0, 0.02)
+
+
+def _geom_gap(a, g, row=0, ctx=None):
+  """Gaps scaled and shifted; the two 'gap band' spheres (if the model has them) alternate between a gap that excludes and one that
+  includes their contact, so that consecutive rows differ in whether that contact exists."""
+  _scale_add(a, g, 0.01)
+  for gid, base, _ in (ctx or {}).get("band", []):
+    a[gid] = base * (0.35 if row % 2 == 0 else 1.4)
+
+
+_geom_gap.rowaware = True
 
 
 def _dynprm(a, g):
@@ -349,7 +368,7 @@ RULES = {
   "geom_quat": (lambda a, g: _quat(a, g, 0.5), 0),
   "geom_friction": (_scale, 0),
   "geom_margin": (_geom_margin, 1),
-  "geom_gap": (lambda a, g: _scale_add(a, g, 0.01), 0),
+  "geom_gap": (_geom_gap, 0),
   "geom_surfacevel": (_scale, 0),  # zero stays zero (flg_surfacevel is frozen by put_model)
   "geom_adhesion": (_scale, 0),  # zero stays zero (flg_adhesion is frozen by put_model)
   "site_pos": (lambda a, g: _add(a, g, 0.05), 0),
@@ -453,7 +472,10 @@ def perturb(mjm, base, owner, name, g, only_static=False, skip_static=True, row=
   fn, needs = RULES.get(name, (_scale, 0))
   if getattr(fn, "rowaware", False):
     f0 = fn
-    fn = lambda a, gg: f0(a, gg, row, ctx if ctx is not None else {})
+    if needs == 1:
+      fn = lambda mm, a, gg: f0(mm, a, gg, row, ctx if ctx is not None else {})
+    else:
+      fn = lambda a, gg: f0(a, gg, row, ctx if ctx is not None else {})
   excluded = 0
   if needs == 2:
     fn(mjm, None, g)
@@ -583,7 +605,7 @@ def _features(spec, r, tags):
   if plain:
     scalar, sites = scalar_all, sites_all
   # --- equalities (all active): three of the four kinds, body- or site-based connect/weld
-  kinds = [k for k in ["connect", "weld", "joint", "tendon"] if (k != "joint" or scalar) and (k != "tendon" or ("t0" in tnames and "sleep" not in tags))]
+  kinds = [k for k in ["connect", "weld", "joint", "tendon"] if (k != "joint" or scalar) and (k != "tendon" or ("t0" in tnames and "sleep" not in tags and "sleepflag" not in tags))]
   kinds = [kinds[i] for i in r.g.permutation(len(kinds))[:3]]
   if plain:
     kinds = []
@@ -755,7 +777,8 @@ def build_spec(seed, opt, tags=()):
   """-> spec (with spec['_surfacevel']).  opt: dict(integrator, solver, cone, jacobian)."""
   cfg = make_cfg(seed, tags)
   r = R([int(seed), 0xF1E1D])
-  option = dict(integrator=opt["integrator"], solver=opt["solver"], cone=opt["cone"], jacobian=opt["jacobian"], impratio=r.u(0.5, 4.0), magnetic=r.vec(3, -0.5, 0.5))
+  option = dict(integrator=opt["integrator"], solver=opt["solver"], cone=opt["cone"], jacobian=opt["jacobian"], impratio=r.u(0.5, 4.0), magnetic=r.vec(3, -0.5, 0.5),
+                iterations=50)  # (the CPU solver loop costs one launch set per iteration for the slowest world)
   flags = dict(energy="enable")
   if "elliptic" in tags:
     option["cone"] = "elliptic"
@@ -763,8 +786,9 @@ def build_spec(seed, opt, tags=()):
     option["solver"] = "CG"
   if "lstol" in tags:
     option["tolerance"] = 1e-3  # the linesearch gradient tolerance is max(tolerance * ls_tolerance * |search| * scale, 1e-6): visible only with a loose main tolerance
-  if "sleep" in tags:
+  if "sleep" in tags or "sleepflag" in tags:
     option["solver"] = "Newton"
+    option["jacobian"] = "dense"  # (Newton + sparse is reproducible to solver accuracy only; with sleeping that reaches every output)
     flags["sleep"] = "enable"
   option["flags"] = flags
   cfg["option"] = option
@@ -786,6 +810,10 @@ def build_spec(seed, opt, tags=()):
         k += 1
     spec["meshes"] = sorted({g["mesh"] for g in allgeoms if g.get("mesh")} | {"tetra", "cube"})
   _features(spec, r, tags)
+  if "gapband" in tags:  # two free spheres away from everything else, 0.3 apart (see fit_gap_band)
+    for k, nm in enumerate(("gbA", "gbB")):
+      bodies.append(dict(name=f"b{nm}", parent=-1, pos=[3.0, 0.4 * k, 1.0], quat=[1, 0, 0, 0], joints=[dict(name=f"j{nm}", type="free")],
+                         geoms=[dict(name=nm, type="sphere", size=[0.05], pos=[0, 0, 0], quat=[1, 0, 0, 0])], sites=[], cameras=[], lights=[]))
   # put_model rejects margins on box/mesh pairs (multiccd / native ccd): keep those geoms and pairs margin-free
   gtype = {g["name"]: g["type"] for g in allgeoms}
   for g in allgeoms:
@@ -877,6 +905,29 @@ def fit_limits_to_state(mjm, state, g, calm=False):
       off = g.uniform(0.01, 0.1) * viol
       w = g.uniform(0.2, 0.6)
       mjm.tendon_range[t] = (L + off, L + off + w) if g.uniform() < 0.5 else (L - off - w, L - off)
+
+
+def fit_gap_band(mjm, state):
+  """The two free spheres gbA/gbB (tag gapband) sit d0 apart at the drawn state: their margins and gaps are set so that d0 lies in the
+  gap band (margin < d0 < margin + gap): the contact exists only while the summed gap exceeds 0.5 d0 - in the broadphase (for spheres
+  its bounding-sphere test is exact) and in the narrowphase.  Returns [(geomid, base gap)]."""
+  ids = [mujoco.mj_name2id(mjm, mujoco.mjtObj.mjOBJ_GEOM, n) for n in ("gbA", "gbB")]
+  if min(ids) < 0:
+    return []
+  p = []
+  for gid in ids:
+    b = mjm.geom_bodyid[gid]
+    adr = mjm.jnt_qposadr[mjm.body_jntadr[b]]
+    p.append(np.array(state["qpos"][adr : adr + 3]))
+  d0 = float(np.linalg.norm(p[0] - p[1]) - mjm.geom_size[ids[0], 0] - mjm.geom_size[ids[1], 0])
+  if d0 < 0.01:
+    return []
+  out = []
+  for gid in ids:
+    mjm.geom_margin[gid] = 0.25 * d0
+    mjm.geom_gap[gid] = 0.4 * d0
+    out.append((int(gid), 0.4 * d0, 0.25 * d0))
+  return out
 
 
 def copy_model(mjm):
